@@ -189,3 +189,14 @@ package querylog
 // (home.onConfigModified -> config.write -> WriteDiskConfig): it must be invoked with no lock held.
 //@ package-callsite fieldcall:github.com/AdguardTeam/AdGuardHome/internal/querylog.Config.ConfigModified() requires nolocks()
 //@ sweep C05 fieldcall:github.com/AdguardTeam/AdGuardHome/internal/querylog.Config.ConfigModified
+
+// ---- C08: a name on the ignore list, or a client flagged to be ignored, is never logged ----
+//@ func (l *queryLog) isIgnored(host string) (r0 bool)
+//@   property C08
+//@   ensures r0 == l.conf.Ignored.Has(host)
+//@   modifies nothing
+//@ func (l *queryLog) ShouldLog(host string, _p1 uint16, _p2 uint16, ids []string) (r0 bool)
+//@   property C08
+//@   requires !held(l.confMu) && !rheld(l.confMu)
+//@   ensures ignored-name-not-logged: r0 ==> !l.conf.Ignored.Has(host)
+//@   modifies *
